@@ -313,7 +313,6 @@ def shard_file(progs: list[dict], attr_cases: list[tuple[list, list]], builtin_n
                 askeys.append(i)
     txt = HEADER + "\n".join(ns_lines) + "\n" + "\n".join(heap_lines) + "\n" + "\n".join(lines) + "\n"
     txt += "Definition cases : list pcase :=\n  [" + ";\n   ".join(f"mkCase {nm} {nf} {wm} {wf} p{i}" for i, nm, nf, wm, wf in ok_idx) + "].\n"
-    txt += "Eval vm_compute in (bad_idx case_ok cases).\n"
     # holder attributes: reads vs sets, per schema
     acs = []
     for reads, sets in attr_cases:
@@ -322,20 +321,24 @@ def shard_file(progs: list[dict], attr_cases: list[tuple[list, list]], builtin_n
         acs.append(f"({rl}, {sl})")
     txt += "Definition acases : list (list (N * N) * list (N * N)) :=\n  [" + ";\n   ".join(acs) + "].\n"
     txt += "Definition aok (c : list (N * N) * list (N * N)) : bool := attrs_closed (fst c) (snd c).\n"
-    txt += "Eval vm_compute in (bad_idx aok acases).\n"
     # identity binding: the rendered chain of every schema class a program mentions reaches that very class,
     # whenever the renderings are injective (domain predicate evaluated here, in Coq)
     txt += "Definition bcases : list (world * list expectation) :=\n  [" + ";\n   ".join(bcases) + "].\n"
     txt += "Definition bok (c : world * list expectation) : bool := negb (inj_ok (snd c)) || binding_ok (fst c) (snd c).\n"
-    txt += "Eval vm_compute in (bad_idx bok bcases).\n"
-    txt += "Eval vm_compute in (bad_idx (fun c : world * list expectation => inj_ok (snd c)) bcases).\n"
     # namespace assembly: model (setdefault over the recorded imports) vs the function's real __globals__
     txt += "Definition ascases : list (gmap * list (name * N) * gmap) :=\n  [" + ";\n   ".join(ascases.keys()) + "].\n"
     txt += "Definition asok (c : gmap * list (name * N) * gmap) : bool := assembly_ok (fst (fst c)) (snd (fst c)) (snd c).\n"
-    txt += "Eval vm_compute in (bad_idx asok ascases).\n"
-    # kernel-checked statements for this shard (fail if any case is rejected)
-    txt += ("Lemma shard_closed : bad_idx case_ok cases = [] /\\ bad_idx aok acases = [] /\\ bad_idx bok bcases = [] /\\ bad_idx asok ascases = [].\n"
-            "Proof. repeat split; vm_compute; reflexivity. Qed.\n"
-            "Definition shard_programs_never_raise_NameError := shard_sound cases (proj1 shard_closed).\n")
+    # kernel-checked statements for this shard (coqc fails if any case is rejected); the number of programs outside the
+    # domain of the binding theorem is printed
+    lemma = ("Lemma shard_closed : bad_idx case_ok cases = [] /\\ bad_idx aok acases = [] /\\ bad_idx bok bcases = [] /\\ bad_idx asok ascases = [].\n"
+             "Proof. split; [| split; [| split]]; vm_compute; reflexivity. Qed.\n"
+             "Definition shard_programs_never_raise_NameError := shard_sound cases (proj1 shard_closed).\n"
+             "Eval vm_compute in (bad_idx (fun c : world * list expectation => inj_ok (snd c)) bcases).\n")
+    # diagnosis (compiled only when the lemma fails): which cases are rejected
+    diag = ("Eval vm_compute in (bad_idx case_ok cases).\nEval vm_compute in (bad_idx aok acases).\n"
+            "Eval vm_compute in (bad_idx bok bcases).\nEval vm_compute in (bad_idx (fun c : world * list expectation => inj_ok (snd c)) bcases).\n"
+            "Eval vm_compute in (bad_idx asok ascases).\n")
+    info_extra = {"diag": txt + diag}
+    txt = txt + lemma
     return txt, [i for i, *_ in ok_idx], {"untranslated": untranslated, "names": len(it.ids), "ns_defs": len(ns_defs),
-                                          "bkeys": bkeys, "askeys": askeys, "objects": len(oids)}
+                                          "bkeys": bkeys, "askeys": askeys, "objects": len(oids), **info_extra}
